@@ -8,12 +8,34 @@ use crate::place::{place, Buf};
 use crate::substr::{force, sym_hay};
 use memchr::memmem;
 
-pub unsafe fn trap_alloc(_layout: std::alloc::Layout) -> *mut u8 {
-    panic!("heap allocation reached");
+/// While false (only inside `allow_alloc`), the trap forwards to the system
+/// allocator so that a harness can *prepare* an owned value and then check
+/// that using it allocates nothing.
+static mut ALLOC_FORBIDDEN: bool = true;
+
+pub unsafe fn trap_alloc(layout: std::alloc::Layout) -> *mut u8 {
+    if ALLOC_FORBIDDEN {
+        panic!("heap allocation reached");
+    }
+    std::alloc::GlobalAlloc::alloc(&std::alloc::System, layout)
 }
 
-pub unsafe fn trap_realloc(_p: *mut u8, _layout: std::alloc::Layout, _n: usize) -> *mut u8 {
-    panic!("heap allocation reached");
+pub unsafe fn trap_realloc(p: *mut u8, layout: std::alloc::Layout, n: usize) -> *mut u8 {
+    if ALLOC_FORBIDDEN {
+        panic!("heap allocation reached");
+    }
+    std::alloc::GlobalAlloc::realloc(&std::alloc::System, p, layout, n)
+}
+
+pub fn allow_alloc<T>(f: impl FnOnce() -> T) -> T {
+    unsafe {
+        ALLOC_FORBIDDEN = false;
+    }
+    let r = f();
+    unsafe {
+        ALLOC_FORBIDDEN = true;
+    }
+    r
 }
 
 #[cfg(kani)]
@@ -52,7 +74,7 @@ pub fn all_memmem<const NLEN: usize, const HCAP: usize>(mode: u8) {
 }
 
 #[cfg(kani)]
-pub fn all_memchr<const LEN: usize>() {
+pub fn all_memchr<const LEN: usize>(group: u8) {
     let hb: [u8; LEN] = kani::any();
     let h = &hb[..];
     let (n1, n2, n3): (u8, u8, u8) = (kani::any(), kani::any(), kani::any());
@@ -61,24 +83,23 @@ pub fn all_memchr<const LEN: usize>() {
     kani::assume(!avx2 || sse2);
     memchr::verif::force_sse2(Some(sse2));
     memchr::verif::force_avx2(Some(avx2));
-    let _ = memchr::memchr(n1, h);
-    let _ = memchr::memrchr(n1, h);
-    let _ = memchr::memchr2(n1, n2, h);
-    let _ = memchr::memrchr2(n1, n2, h);
-    let _ = memchr::memchr3(n1, n2, n3, h);
-    let _ = memchr::memrchr3(n1, n2, n3, h);
-    let mut it = memchr::memchr_iter(n1, h);
-    let _ = it.next();
-    let _ = it.next_back();
-    let _ = it.count();
-    let mut it = memchr::memrchr_iter(n1, h);
-    let _ = it.next();
-    let mut it = memchr::memchr2_iter(n1, n2, h);
-    let _ = it.next_back();
-    let mut it = memchr::memchr3_iter(n1, n2, n3, h);
-    let _ = it.next();
-    let mut it = memchr::memrchr3_iter(n1, n2, n3, h);
-    let _ = it.next();
+    if group == 0 {
+        let _ = memchr::memchr(n1, h);
+        let _ = memchr::memrchr(n1, h);
+    } else if group == 1 {
+        let mut it = memchr::memchr_iter(n1, h);
+        let _ = it.next();
+        let _ = it.next_back();
+        let _ = it.count();
+    } else if group == 2 {
+        let _ = memchr::memchr2(n1, n2, h);
+        let mut it = memchr::memchr2_iter(n1, n2, h);
+        let _ = it.next_back();
+    } else {
+        let _ = memchr::memchr3(n1, n2, n3, h);
+        let mut it = memchr::memrchr3_iter(n1, n2, n3, h);
+        let _ = it.next();
+    }
     kani::cover!(avx2, "AVX2");
     kani::cover!(!sse2, "fallback");
 }
@@ -94,6 +115,45 @@ pub fn long_needle_noalloc<const HLEN: usize>(family: u8) {
     let (r, _) = f.verif_find_with_state(0, 0, h);
     crate::oracle::check_leftmost(h, n, r);
     kani::cover!(f.verif_strategy() == 3, "Two-Way with prefilter");
+}
+
+/// Searching and iterating with an OWNED finder allocates nothing either
+/// (only the owning conversion itself does).
+#[cfg(kani)]
+pub fn owned_finder_use<const NLEN: usize, const HCAP: usize>() {
+    force(1);
+    let nb: [u8; NLEN] = kani::any();
+    let (hb, hlen) = sym_hay::<HCAP>(0, HCAP);
+    let h = &hb.0[..hlen];
+    let (f, fr) = allow_alloc(|| {
+        (memmem::Finder::new(&nb[..]).into_owned(), memmem::FinderRev::new(&nb[..]).into_owned())
+    });
+    let r = f.find(h);
+    crate::oracle::check_leftmost(h, &nb[..], r);
+    let mut it = f.find_iter(h);
+    assert!(it.next() == r, "oracle: first find_iter item differs from find");
+    let rr = fr.rfind(h);
+    let mut rit = fr.rfind_iter(h);
+    assert!(rit.next() == rr, "oracle: first rfind_iter item differs from rfind");
+    let g = f.as_ref();
+    assert!(g.find(h) == r, "oracle: as_ref differs");
+    kani::cover!(r.is_some(), "occurrence");
+    core::mem::forget(f);
+    core::mem::forget(fr);
+}
+
+/// One-shot functions on haystacks of 16..=63 bytes (the Rabin-Karp window of
+/// `memmem::find`), concrete lengths.
+#[cfg(kani)]
+pub fn oneshot_mid<const NLEN: usize, const HLEN: usize>() {
+    force(1);
+    let nb: [u8; NLEN] = kani::any();
+    let hb: [u8; HLEN] = kani::any();
+    let r = memmem::find(&hb[..], &nb[..]);
+    crate::oracle::check_leftmost(&hb[..], &nb[..], r);
+    let rr = memmem::rfind(&hb[..], &nb[..]);
+    crate::oracle::check_rightmost(&hb[..], &nb[..], rr);
+    kani::cover!(r.is_some(), "occurrence");
 }
 
 #[cfg(kani)]
@@ -126,9 +186,16 @@ inst_noalloc!(na_memmem_n0, [props=C17 tier=quick cfg=x86std t=1500 role=noalloc
 inst_noalloc!(na_memmem_n1, [props=C17 tier=quick cfg=x86std t=1500 role=noalloc-memmem], 10, all_memmem::<1, 8>(1));
 inst_noalloc!(na_memmem_n2_rk, [props=C17 tier=quick cfg=x86std t=1500 role=noalloc-memmem], 10, all_memmem::<2, 8>(1));
 inst_noalloc!(na_memmem_n2_nosimd, [props=C17 tier=quick cfg=x86std t=1500 role=noalloc-memmem], 10, all_memmem::<2, 8>(0));
-inst_noalloc!(na_memchr_12, [props=C17 tier=quick cfg=x86std t=1500 role=noalloc-memchr uw=byte_by_byte:34;all::memchr::One::count_raw.0:67;all::memchr:10;find_raw.0:3;find_raw.1:4;count_raw.0:3;count_raw.1:4], 3, all_memchr::<12>());
-inst_noalloc!(na_memchr_34, [props=C17 tier=quick cfg=x86std t=1800 role=noalloc-memchr uw=byte_by_byte:34;all::memchr::One::count_raw.0:67;all::memchr:10;find_raw.0:3;find_raw.1:4;count_raw.0:3;count_raw.1:4], 3, all_memchr::<34>());
+inst_noalloc!(na_memchr_g0_12, [props=C17 tier=quick cfg=x86std+x86log t=1800 role=noalloc-memchr uw=byte_by_byte:34;all::memchr::One::count_raw.0:67;all::memchr:10;find_raw.0:3;find_raw.1:4;count_raw.0:3;count_raw.1:4], 3, all_memchr::<12>(0));
+inst_noalloc!(na_memchr_g1_12, [props=C17 tier=quick cfg=x86std t=1800 role=noalloc-memchr uw=byte_by_byte:34;all::memchr::One::count_raw.0:67;all::memchr:10;find_raw.0:3;find_raw.1:4;count_raw.0:3;count_raw.1:4], 3, all_memchr::<12>(1));
+inst_noalloc!(na_memchr_g2_12, [props=C17 tier=quick cfg=x86std t=1800 role=noalloc-memchr uw=byte_by_byte:34;all::memchr::One::count_raw.0:67;all::memchr:10;find_raw.0:3;find_raw.1:4;count_raw.0:3;count_raw.1:4], 3, all_memchr::<12>(2));
+inst_noalloc!(na_memchr_g3_12, [props=C17 tier=quick cfg=x86std t=1800 role=noalloc-memchr uw=byte_by_byte:34;all::memchr::One::count_raw.0:67;all::memchr:10;find_raw.0:3;find_raw.1:4;count_raw.0:3;count_raw.1:4], 3, all_memchr::<12>(3));
+inst_noalloc!(na_memchr_g0_34, [props=C17 tier=quick cfg=x86std t=1800 role=noalloc-memchr uw=byte_by_byte:34;all::memchr::One::count_raw.0:67;all::memchr:10;find_raw.0:3;find_raw.1:4;count_raw.0:3;count_raw.1:4], 3, all_memchr::<34>(0));
+inst_noalloc!(na_memchr_g1_34, [props=C17 tier=thorough cfg=x86std t=3600 role=noalloc-memchr uw=byte_by_byte:34;all::memchr::One::count_raw.0:67;all::memchr:10;find_raw.0:3;find_raw.1:4;count_raw.0:3;count_raw.1:4], 3, all_memchr::<34>(1));
 inst_noalloc!(na_long_f0_40, [props=C17 tier=quick cfg=x86std t=1800 role=noalloc-long-needle uw=Suffix::forward:70;ApproximateByteSet:35;with_ranker:35;is_equal_raw:10;rabinkarp::Finder::new:35;find_large_imp.0:10;find_large_imp.1:35;find_large_imp.2:35;find_small_imp.0:10;find_small_imp.1:35;find_small_imp.2:35], 4, long_needle_noalloc::<40>(0));
+inst_noalloc!(na_owned_use_n2, [props=C17 tier=quick cfg=x86std t=1500 role=noalloc-owned-finder], 10, owned_finder_use::<2, 6>());
+inst_noalloc!(na_oneshot_n2_h17, [props=C17 tier=quick cfg=x86std t=1500 role=noalloc-oneshot-mid uw=is_equal_raw:3;Hash:4;rabinkarp::Finder::new:4;rabinkarp::FinderRev::new:4;find_raw:18;rfind_raw:18;oracle:4], 3, oneshot_mid::<2, 17>());
+inst_noalloc!(na_oneshot_n3_h40, [props=C17 tier=thorough cfg=x86std t=3600 role=noalloc-oneshot-mid uw=is_equal_raw:3;Hash:5;rabinkarp::Finder::new:5;rabinkarp::FinderRev::new:5;find_raw:40;rfind_raw:40;oracle:5], 3, oneshot_mid::<3, 40>());
 inst_noalloc!(na_witness_into_owned, [props=C17 tier=quick cfg=x86std t=600 role=alloc-trap-witness expect=fail:heap_allocation_reached], 8, witness_into_owned());
 inst_noalloc!(na_witness_iter_into_owned, [props=C17 tier=quick cfg=x86std t=600 role=alloc-trap-witness expect=fail:heap_allocation_reached], 8, witness_iter_into_owned());
 inst_noalloc!(na_witness_shiftor, [props=C17 tier=quick cfg=x86std t=600 role=alloc-trap-witness expect=fail:heap_allocation_reached], 8, witness_shiftor());
